@@ -2,8 +2,9 @@
    sources), NO proofs.  Floating values are dyadic: sign, integer significand, binary
    exponent; rounding is written out (round to nearest, ties to even, gradual underflow,
    overflow to infinity) and compared bit by bit with the hardware in every run.
-   There is no theorem about this file: float -> float is covered by the correspondence
-   run and the specification function [spec_fconv] only (see Properties.v). *)
+   Theorems about this file: ConvRound.v (nearest-even on integers), ConvFlocq.v ([fround] is
+   Flocq's round ... ZnearestE), ConvBits.v (fdecode after fencode), ConvFloatThm.v ([fconv]);
+   statements in Properties.v. *)
 From MptV Require Import Base.Mem C07.ConvModel.
 Local Open Scope Z_scope.
 
